@@ -18,7 +18,7 @@ STRENGTHENED = {
  "C11-m10": "missed at first: the custom gene's negation was an involution, so being negated twice looked like not being negated; it now counts how often it was applied (at most once; exactly once at rate 1, never at rate 0)",
  "C13-m9": "missed at first: C13 only selected from non-empty populations; it now also selects from an empty one (an all-zero combination still reports its zero-weight error, any other delegates to exactly one positive-weight member)",
  "C15-m9": "missed at first: Score / Error were only instantiated with totally ordered inner types; they now also wrap f64 with NaNs, infinities and signed zeros (every operator must agree with partial_cmp, all false where it is None), u64 and i128 extremes",
- "C07-m12": "missed at first, as a hang: on a population with fewer distinct values than the tournament size the changed loop never terminates, and the check would have sat there until an outer time-out without a verdict. Every check now has a hang watchdog: a worker thread that burns more than the CPU budget (300 s quick, 900 s thorough; largest gap seen on the unchanged tree < 1 s) inside one monitored evaluation is reported as <ID>/hang with the shard it was working on",
+ "C07-m12": "missed at first, as a hang: on a population with fewer distinct values than the tournament size the changed loop never terminates, and the check would have sat there until an outer time-out without a verdict. Every check now has a hang watchdog: a worker thread that burns more than the CPU budget (150 s quick, 900 s thorough; largest gap seen on the unchanged tree < 1 s) inside one monitored evaluation is reported as <ID>/hang with the shard it was working on",
  "C10-m11": "missed at first, as a crash of the monitor itself: the oracle of crossover_segment indexed the genomes after the call assuming their lengths were unchanged, and the change swaps whole buffers of different lengths; lengths are now compared before contents",
  "C15-m11": "missed at first: individuals and result collections were only built over totally ordered results; they now also wrap TestResult<f64, f64> (score against error, NaN) and plain f64, alone and nested, and every comparison operator must agree with the results' own partial order - incomparable stays incomparable",
  "C16-m11": "missed at first: in the call histories on one operator value every call succeeded; the call in the middle is now also one on an empty population and one that fails part-way (an individual with fewer results than lexicase looks at), and must leave nothing behind in the operator value",
